@@ -15,6 +15,7 @@ import mlzlog
 
 import frappy.secnode
 import frappy.protocol.discovery
+import frappy.protocol.dispatcher  # noqa: F401  (loaded lazily by get_class otherwise: it must exist before any rebinding scan)
 from frappy.errors import SECoPError
 from frappy.logging import init_remote_logging
 from frappy.protocol.interface import decode_msg, encode_msg_frame
@@ -158,7 +159,9 @@ class Node(Server):
         try:
             self._processCfg()
         except SystemExit:
-            raise StartupRefused(list(self.secnode.errors), buf.getvalue()) from None
+            err = StartupRefused(list(self.secnode.errors), buf.getvalue())
+            err.logged = [r for r in self.loghandler.records if r[1] in ('ERROR', 'CRITICAL')]
+            raise err from None
         finally:
             sys.stderr = stderr
 
